@@ -25,6 +25,8 @@ VOCAB = ['do_return', 'retval_', 'break_', 'continue_', 'get_state', 'set_state'
          'get_state_1', 'loop_body_2', 'break__1']
 
 KNOWN_AG = 'user-name-equals-fixed-alias-ag__'
+GLOBALS_PRELUDE = '\n' + '\n'.join('%s = %d' % (n, 1001 + i) for i, n in enumerate(
+    ['get_state', 'set_state', 'if_body', 'else_body', 'loop_body', 'loop_test', 'itr', 'do_return', 'retval_', 'fscope'])) + '\n'
 
 
 def generate():
@@ -126,10 +128,17 @@ def check(run):
     failures = []
     nprog = 70 if quick else 700
     srcs = []
-    for _ in range(nprog):
+    for it in range(nprog):
         names = rnd.sample(VOCAB, 4)
         opts = progs.Opts(loop_else=False, reads='safe', names=names, max_stmts=12, fresh_for_targets=rnd.random() < 0.7,
                           nested_def=True)
+        if it % 3 == 0:
+            # vocabulary names that exist only as module globals read inside nested functions: the enclosing
+            # function never mentions them, yet a helper of that name defined there would capture the read
+            opts.names = ['x', 'y', 'z', 'w']
+            opts.nested_global_reads = ['get_state', 'set_state', 'if_body', 'else_body', 'loop_body', 'loop_test', 'itr',
+                                        'do_return', 'retval_', 'fscope']
+            opts.max_depth = 3
         src = progs.gen_function(rnd, opts)
         # parameters from the vocabulary as well
         ps = rnd.sample(VOCAB, 3)
@@ -146,7 +155,7 @@ def check(run):
     allsrc = csrcs + srcs
     naming.Namer.new_symbol = spy
     try:
-        mod = convrun.load_module(allsrc, c01.PRELUDE)
+        mod = convrun.load_module(allsrc, c01.PRELUDE + GLOBALS_PRELUDE)
         for i, src in enumerate(allsrc):
             f = getattr(mod, 'f%d' % i)
             idents = set(n.id for n in ast.walk(ast.parse(src)) if isinstance(n, ast.Name)) | \
